@@ -82,7 +82,8 @@ Definition ascii (l : list Z) : bool := forallb (fun c => c <? 128) l.
 
 (** verdict: 0 passes; 1 the rendering crashed; 2 the location has no line/columns (not a Range);
     3 a line of the location does not exist or the lines are out of order; 4 a column lies outside its line;
-    5 the location does not cover the construct; 6 the marker row is not under the location (ASCII lines only) *)
+    5 the location does not cover the construct; 6 the marker row is not under the location (counted in
+    characters: as many blanks as the begin column, as many marks as the range has characters) *)
 Definition judge (src : list Z) (crashed : bool) (l : location) (e : expectation) (first_row : option (Z * Z)) : Z :=
   if crashed then 1
   else
@@ -98,7 +99,7 @@ Definition judge (src : list Z) (crashed : bool) (l : location) (e : expectation
           | ExpNone => true
           end in
         if negb covers then 5
-        else if ascii (line_at src lb) && negb (caret_ok src l first_row) then 6
+        else if negb (caret_ok src l first_row) then 6
         else 0
     | _ => match e with ExpNone => if wf_locb l src then 0 else 3 | _ => 2 end
     end.
